@@ -302,7 +302,11 @@ class NonBondEngine():
                 if gndx_pair not in exclusions:
                     other_atype = self.atypes[gndx_pair]
                     params = self.interaction_matrix[frozenset([current_atype, other_atype])]
-                    force += POTENTIAL_FUNC[potential](dist, point, self.positions[gndx_pair], params)
+                    # the distance follows the minimum image convention, so the
+                    # distance vector has to point to the same periodic image
+                    ref_point = self.positions[gndx_pair]
+                    ref_point = ref_point + self.boxsize * np.round((point - ref_point) / self.boxsize)
+                    force += POTENTIAL_FUNC[potential](dist, point, ref_point, params)
         return force
 
     def compute_bending_probability(self, lp, point, mol_idx, node_b, node_c):
